@@ -2,6 +2,7 @@
 from framework import Case
 
 PROP = 'C08'
+TRANSLATORS = ['ugraph']
 RULE = ('histories of 1-80 ops (thorough: up to 250) over add/addroot/rmnode/edge/edgew/rmedge/clear, built through every '
         'public constructor with initial capacities 0-4 (forces matrix growth 0/1/2/3/4 -> 4 -> 8 -> 16 ...); targets drawn '
         'mostly from the indices returned so far (live or removed, so that index reuse after removals, duplicate edges, '
@@ -178,6 +179,8 @@ def generate(rng, tier):
 def exhaustive_small():
     """every sequence of <= 4 mutators over two pre-built nodes (indices 0, 1), full snapshot after each"""
     import itertools
+    # index-width boundary of the petgraph node index (only reached by this directed case)
+    yield Case('cap 0 via new', ['add 1', 'addmany 70000'], tags=('index-width',))
     alpha = ['add 9', 'rmnode 0', 'rmnode 1', 'edge 0 1', 'edge 1 0', 'edge 0 0', 'rmedge 0 1', 'rmedge 1 0', 'addroot 8']
     for L in range(1, 5):
         for seq in itertools.product(alpha, repeat=L):
